@@ -709,13 +709,15 @@ package astisub
 
 //@ func parseOpenSubtitleRow(i *Item, d decoder, fs func() styler, row []byte) error
 //@   prop C08
-//@   requires i != nil && d != nil
-//@   loop 1: invariant li.InlineStyle != nil
+//@   requires i != nil && d != nil && ref(d) != 0
+//@   requires dynptr(d, teletextCharacterDecoder) ==> forall j int :: 0 <= j && j < len(row) ==> row[j] < 128
+//@   loop 1: invariant li.InlineStyle != nil && (s != nil ==> ref(s) != 0)
+//@   loop 1: invariant dynptr(d, teletextCharacterDecoder) ==> forall j int :: 0 <= j && j < len(row) ==> row[j] < 128
 //@ end
 
 //@ func appendOpenSubtitleLineItem(l *Line, li LineItem, s styler)
 //@   prop C08
-//@   requires l != nil
+//@   requires l != nil && (s != nil ==> ref(s) != 0)
 //@ end
 
 //@ func newSTLCharacterHandler(characterCodeTable uint16) (*stlCharacterHandler, error)
@@ -740,4 +742,115 @@ package astisub
 //@   requires writable(s) && o != nil
 //@   loop 2: invariant forall m int :: 0 <= m && m < len(k) ==> has(s.Regions, k[m])
 //@   loop 4: invariant forall m int :: 0 <= m && m < len(k) ==> has(s.Styles, k[m])
+//@ end
+
+// ---- teletext ----
+
+// A page's packet rows are 40 bytes of 7-bit characters (parity stripped by parsePacketData).
+//@ pred tpage(p *teletextPage) = p != nil && p.data != nil && (forall k uint8 :: has(p.data, k) ==> len(p.data[k]) == 40) && (forall k uint8, j int :: has(p.data, k) && 0 <= j && j < 40 ==> p.data[k][j] < 128)
+//@ pred tbuf(b *teletextPageBuffer) = b.cd != nil && (b.receiving ==> b.currentPage != nil) && (b.currentPage != nil ==> tpage(b.currentPage)) && (forall k int :: 0 <= k && k < len(b.donePages) ==> tpage(b.donePages[k]))
+
+//@ func ReadFromTeletext(r io.Reader, o TeletextOptions) (s *Subtitles, err error)
+//@   prop C08 C18
+//@   requires r != nil
+//@   loop 1: invariant s != nil && cd != nil && b != nil && tbuf(b)
+//@   loop 1: invariant forall k int :: 0 <= k && k < len(ps) ==> tpage(ps[k])
+//@   loop 2: invariant s != nil && cd != nil
+//@   loop 2: invariant forall k int :: 0 <= k && k < len(ps) ==> tpage(ps[k])
+//@ end
+
+//@ func teletextDataTime(d *astits.DemuxerData) time.Time
+//@   prop C08
+//@   requires d != nil && d.PES != nil
+//@ end
+
+//@ func teletextPID(dmx *astits.Demuxer, o TeletextOptions) (pid uint16, err error)
+//@   prop C08
+//@   requires dmx != nil
+//@ end
+
+//@ func newTeletextPageBuffer(page int, cd *teletextCharacterDecoder) *teletextPageBuffer
+//@   prop C08
+//@   requires cd != nil
+//@   ensures result != nil && tbuf(result)
+//@ end
+
+//@ func (b *teletextPageBuffer) dump(lastTime time.Time) (ps []*teletextPage)
+//@   prop C08
+//@   requires tbuf(b)
+//@   ensures forall k int :: 0 <= k && k < len(ps) ==> tpage(ps[k])
+//@ end
+
+//@ func (b *teletextPageBuffer) process(d *astits.PESData, t time.Time) (ps []*teletextPage)
+//@   prop C08
+//@   requires tbuf(b) && d != nil
+//@   ensures tbuf(b)
+//@   ensures forall k int :: 0 <= k && k < len(ps) ==> tpage(ps[k])
+//@   loop 1: invariant tbuf(b) && 1 <= offset
+//@ end
+
+//@ func (b *teletextPageBuffer) parseDataUnit(i []byte, id uint8, t time.Time)
+//@   prop C08
+//@   requires tbuf(b)
+//@   ensures tbuf(b)
+//@ end
+
+//@ func (b *teletextPageBuffer) parsePacket(i []byte, magazineNumber, packetNumber uint8, t time.Time)
+//@   prop C08
+//@   requires tbuf(b) && len(i) >= 40
+//@   ensures tbuf(b)
+//@ end
+
+//@ func (b *teletextPageBuffer) parsePacketHeader(i []byte, magazineNumber uint8, t time.Time) (transmissionDone bool)
+//@   prop C08
+//@   requires tbuf(b) && len(i) >= 8
+//@   ensures tbuf(b)
+//@ end
+
+//@ func (b *teletextPageBuffer) parsePacketData(i []byte, packetNumber uint8)
+//@   prop C08
+//@   requires tbuf(b) && b.currentPage != nil && len(i) >= 40
+//@   ensures tbuf(b)
+//@   loop 1: invariant tbuf(b) && b.currentPage != nil && has(b.currentPage.data, packetNumber)
+//@ end
+
+//@ func (b *teletextPageBuffer) parsePacket28And29(i []byte, packetNumber, designationCode uint8)
+//@   prop C08
+//@   requires tbuf(b) && len(i) >= 3
+//@   ensures tbuf(b)
+//@ end
+
+//@ func newTeletextPage(charsetCode uint8, start time.Time) *teletextPage
+//@   prop C08
+//@   ensures result != nil && tpage(result) && fresh(result)
+//@ end
+
+//@ func (d *teletextCharacterDecoder) decode(i byte) []byte
+//@   prop C08
+//@   requires i < 128
+//@ end
+
+//@ func (d *teletextCharacterDecoder) updateCharset(pageCharsetCode *uint8, force bool)
+//@   prop C08
+//@   requires pageCharsetCode != nil
+//@ end
+
+//@ func (p *teletextPage) parse(s *Subtitles, d *teletextCharacterDecoder, firstTime time.Time)
+//@   prop C08
+//@   requires tpage(p) && s != nil && d != nil
+//@   ensures forall q *teletextPage :: old(tpage(q)) ==> tpage(q)
+//@   loop 1: invariant i != nil
+//@ end
+
+//@ func parseTeletextRow(i *Item, d decoder, fs func() styler, row []byte)
+//@   prop C08
+//@   requires i != nil && d != nil && ref(d) != 0
+//@   requires dynptr(d, teletextCharacterDecoder) ==> forall j int :: 0 <= j && j < len(row) ==> row[j] < 128
+//@   loop 1: invariant li.InlineStyle != nil && (s != nil ==> ref(s) != 0)
+//@   loop 1: invariant dynptr(d, teletextCharacterDecoder) ==> forall j int :: 0 <= j && j < len(row) ==> row[j] < 128
+//@ end
+
+//@ func appendTeletextLineItem(l *Line, li LineItem, s styler)
+//@   prop C08
+//@   requires l != nil && (s != nil ==> ref(s) != 0)
 //@ end
